@@ -71,6 +71,14 @@ struct Payload : public Elem
 	Payload* clone() const { return new Payload(v); }
 };
 
+// node of a singly linked list held together by Shared handles
+struct SNode : public Elem
+{
+	asl::Shared<SNode> next;
+	SNode(int x) : Elem(x) {}
+	SNode* clone() const { return new SNode(v); }
+};
+
 } // namespace c12
 using namespace c12;
 
@@ -89,6 +97,25 @@ class VObj : public SmartObject
 public:
 	ASL_SMART_DEF(VObj, SmartObject);
 	explicit VObj(int x) : ASL_SMART_INIT(x) {}
+	bool ok() const { return _()->e.ok(); }
+};
+}
+
+// node of a singly linked list held together by SmartObject handles
+namespace asl {
+ASL_SMART_CLASS(CNode, SmartObject)
+{
+public:
+	ASL_SMART_INNER_DEF(CNode);
+	Elem e;
+	SmartObject next;
+	CNode_(int x = 0) : e(x), next((SmartObject_*)0) {}
+};
+class CNode : public SmartObject
+{
+public:
+	ASL_SMART_DEF(CNode, SmartObject);
+	explicit CNode(int x) : ASL_SMART_INIT(x) {}
 	bool ok() const { return _()->e.ok(); }
 };
 }
@@ -685,6 +712,187 @@ void runAtomic(const Plan& p)
 	}
 }
 
+// ---------------------------------------------------------------- chains
+// A list n1 -> n2 -> ... whose links are handles stored inside the nodes. Every thread owns one handle `head`
+// (initially to n1) and walks it with  head = head->next : the right-hand side is a handle that lives inside the
+// object the left-hand side may be the last owner of. The node a head ends up on must be alive ("stays alive while
+// any handle exists"), every node is destroyed exactly once, and no thread touches a node after its destruction.
+// ops: w(thread, kind)  kind 0 advance, 1 read, 2 copy-and-drop a temporary handle, 3 drop the head
+template <class H>
+struct Chain;
+template <>
+struct Chain<asl::Shared<SNode>>
+{
+	typedef asl::Shared<SNode> H;
+	static const char* name() { return "Shared;chain"; }
+	static H make(int len)
+	{
+		H head(new SNode(1));
+		H cur = head;
+		for (int i = 1; i < len; i++)
+		{
+			H n(new SNode(i + 1));
+			cur->next = n;
+			cur = n;
+		}
+		return head;
+	}
+	static bool null(const H& h) { return !h; }
+	static void advance(H& h) { h = h->next; }
+	static bool ok(const H& h) { return h->ok(); }
+	static void clear(H& h) { h = H(); }
+};
+template <>
+struct Chain<asl::SmartObject>
+{
+	typedef asl::SmartObject H;
+	static const char* name() { return "SmartObject;chain"; }
+	static H make(int len)
+	{
+		asl::CNode head(1);
+		asl::CNode cur = head;
+		for (int i = 1; i < len; i++)
+		{
+			asl::CNode n(i + 1);
+			cur.ptr()->next = n;
+			cur = n;
+		}
+		return head;
+	}
+	static bool null(const H& h) { return h._p == 0; }
+	static void advance(H& h) { h = ((asl::CNode_*)h._p)->next; }
+	static bool ok(const H& h) { return ((asl::CNode_*)h._p)->e.ok(); }
+	static void clear(H& h) { h = H((asl::SmartObject_*)0); }
+};
+
+template <class H>
+struct Walker
+{
+	H* head = 0;
+	std::vector<int> ops;
+	bool badRead = false;
+	void run()
+	{
+		for (int k : ops)
+		{
+			if (!head || Chain<H>::null(*head))
+				break;
+			switch (k)
+			{
+			case 0:
+				Chain<H>::advance(*head);
+				if (!Chain<H>::null(*head) && !Chain<H>::ok(*head))
+					badRead = true;
+				break;
+			case 1:
+				if (!Chain<H>::ok(*head))
+					badRead = true;
+				break;
+			case 2:
+			{
+				H tmp(*head);
+				if (!Chain<H>::ok(tmp))
+					badRead = true;
+				break;
+			}
+			default:
+				Chain<H>::clear(*head);
+				break;
+			}
+		}
+	}
+	static void tramp(void* p) { ((Walker*)p)->run(); }
+};
+
+void genChain(Prng& r, Plan& p, int tier)
+{
+	int T = 1 + (int)r.below(3);
+	if (tier && r.below(12) == 0)
+		T = 4 + (int)r.below(5);
+	p.p["threads"] = T;
+	p.p["len"] = 2 + r.below(3);
+	p.p["main_drops_first"] = r.below(2);
+	for (int t = 0; t < T; t++)
+	{
+		int n = 1 + (int)r.below(4);
+		for (int i = 0; i < n; i++)
+			p.ops.push_back(op("w", {t, (int64_t)(r.below(2) ? 0 : r.below(4))}));
+	}
+}
+
+template <class H>
+void runChain(const Plan& p)
+{
+	int T = (int)std::max<int64_t>(1, std::min<int64_t>(8, p.get("threads", 2)));
+	int len = (int)std::max<int64_t>(1, std::min<int64_t>(6, p.get("len", 3)));
+	g_ctor = g_dtor = g_live = g_badDestroy = g_badRead = 0;
+	sim::enableDestructionRaceOracle(true);
+	size_t heap0 = sim::heapLive();
+	{
+		std::vector<Walker<H>> w((size_t)T);
+		H* first = new H(Chain<H>::make(len));
+		for (int t = 0; t < T; t++)
+			w[(size_t)t].head = new H(*first);
+		size_t perThread[8] = {0, 0, 0, 0, 0, 0, 0, 0};
+		for (auto& o : p.ops)
+			if (o.k == "w")
+			{
+				size_t t = (size_t)(std::abs(o.arg(0)) % T);
+				if (perThread[t]++ < 6)
+					w[t].ops.push_back((int)(std::abs(o.arg(1)) % 4));
+			}
+		sim::event("%s threads=%d len=%d", Chain<H>::name(), T, len);
+		bool mainFirst = p.get("main_drops_first") != 0;
+		if (mainFirst)
+		{
+			delete first; // from here on the walkers are the only owners of n1
+			first = 0;
+		}
+		std::vector<sim::TaskId> ids;
+		for (int t = 0; t < T; t++)
+			ids.push_back(sim::spawn(Walker<H>::tramp, &w[(size_t)t]));
+		for (auto id : ids)
+			sim::joinTask(id);
+		{
+			sim::NoSched ns;
+			// a walk that can make a head the last owner of the node it leaves
+			bool advanced = false;
+			for (auto& x : w)
+				for (int k : x.ops)
+					advanced = advanced || k == 0;
+			if (advanced && mainFirst)
+				sim::setNontrivial();
+			for (auto& x : w)
+			{
+				if (x.badRead)
+					sim::fail("wrong_content", Chain<H>::name(), "a thread found a destroyed or damaged node behind its own live handle");
+				if (x.head && !Chain<H>::null(*x.head) && !Chain<H>::ok(*x.head))
+					sim::fail("wrong_content", Chain<H>::name(), "after the walk a live handle refers to a destroyed or damaged node");
+			}
+		}
+		for (auto& x : w)
+		{
+			delete x.head;
+			x.head = 0;
+		}
+		if (first)
+			delete first;
+	}
+	sim::NoSched ns;
+	if (g_badDestroy)
+		sim::fail("double_destroy", Chain<H>::name(), "%d nodes destroyed twice", g_badDestroy);
+	if (g_badRead)
+		sim::fail("use_after_destroy", Chain<H>::name(), "%d payload elements copied from after their destruction", g_badRead);
+	if (g_live != 0 || g_ctor != g_dtor)
+		sim::fail(g_live > 0 ? "leak" : "double_destroy", Chain<H>::name(), "after the last handle was dropped: %d nodes live (constructed %d, destroyed %d)", g_live, g_ctor, g_dtor);
+	if (sim::heapTracking() && sim::heapLive() != heap0)
+		sim::fail("leak", (std::string(Chain<H>::name()) + ";heap").c_str(), "heap blocks live after the last handle was dropped: %zu (before: %zu)", sim::heapLive(), heap0);
+}
+void runSharedChain(const Plan& p) { runChain<asl::Shared<SNode>>(p); }
+void runSmartChain(const Plan& p) { runChain<asl::SmartObject>(p); }
+
+const char* RULE_CHAIN = "non-trivial: the creator dropped its handle first and at least one thread advanced its head (so some head = head->next is executed by the last owner of the node it leaves); distinct by plan hash x context-switch signature";
+
 const char* REAL = "include/asl/atomic.h, Array.h, Map.h, HashMap.h, Pointer.h (Shared/SharedCore), Shared.h (SmartObject), Socket.h handle layer, Mutex.h (Atomic<T>, Lock, Mutex)";
 const char* STUB = "pthread primitives, heap (tracked: freed blocks poisoned and quarantined)";
 const char* RULE = "non-trivial: >=2 threads were still unfinished after all had been started (their operations overlapped); distinct by plan hash x context-switch signature";
@@ -700,5 +908,7 @@ HSCEN(c12_hashdic, "hashdic_handles", runHashDic);
 HSCEN(c12_shared, "shared_ptr", runShared);
 HSCEN(c12_smart, "smartobject", runSmart);
 HSCEN(c12_socket, "socket_handles", runSocket);
+REGISTER_SCENARIO(c12_shared_chain, "C12", "shared_chain", genChain, runSharedChain, 50000, 3000000, {2, 3, 4, 8, 16}, 35, 200000, 60.0, RULE_CHAIN, REAL, STUB, true);
+REGISTER_SCENARIO(c12_smart_chain, "C12", "smart_chain", genChain, runSmartChain, 50000, 3000000, {2, 3, 4, 8, 16}, 35, 200000, 60.0, RULE_CHAIN, REAL, STUB, true);
 REGISTER_SCENARIO(c12_count, "C12", "atomic_count", genCount, runCount, 250000, 10000000, {2, 3, 4, 8}, 35, 100000, 60.0, RULE, REAL, STUB, true);
 REGISTER_SCENARIO(c12_atomic, "C12", "atomic_T", genAtomic, runAtomic, 250000, 10000000, {2, 3, 4, 8}, 35, 100000, 60.0, RULE, REAL, STUB, true);
